@@ -16,6 +16,10 @@ from fractions import Fraction
 from .srcmodel import AnalysisError
 
 COMMUTATIVE_CALLS = {"hypot", "add", "multiply", "maximum", "minimum"}
+_PAREN = {}  # "(canon)" -> Poly : parenthesised sums raised to a fractional power, re-expanded when the exponent becomes integral
+_FUNCS = {}  # atom text -> (function name, [arg Polys])
+# inverse pairs in the given argument position: f_inv(a, f(a, x)) -> x
+INVERSE_PAIRS = {("gammainccinv", "gammaincc"), ("gammaincc", "gammainccinv"), ("gammaincinv", "gammainc"), ("gammainc", "gammaincinv")}
 NP_PREFIXES = ("np.", "numpy.", "math.", "scipy.special.", "special.")
 
 
@@ -78,7 +82,30 @@ class Poly:
             cp = _frac_pow(c, e)
             if cp is not None:
                 return Poly({tuple(sorted((a, x * e) for a, x in m)): cp})
-        return Poly.atom("(" + self.canon() + ")", e)
+        key = "(" + self.canon() + ")"
+        _PAREN[key] = self
+        return Poly.atom(key, e)
+
+    def simplify(self):
+        """re-expand parenthesised sums whose exponent has become a positive integer"""
+        changed = True
+        cur = self
+        guard = 0
+        while changed and guard < 10:
+            changed = False
+            guard += 1
+            out = Poly()
+            for m, c in cur.t.items():
+                term = Poly({(): c})
+                for a, e in m:
+                    if a in _PAREN and e.denominator == 1 and e >= 1:
+                        term = term * _PAREN[a].power(e)
+                        changed = True
+                    else:
+                        term = term * Poly.atom(a, e)
+                out = out + term
+            cur = out
+        return cur
 
     def canon(self):
         if not self.t:
@@ -145,8 +172,7 @@ class Normalizer:
         self.depth = 0
 
     def norm(self, e):
-        p = self._n(e)
-        return p
+        return self._n(e).simplify()
 
     def _atom(self, text):
         return Poly.atom(self.rename.get(text, text))
@@ -166,12 +192,9 @@ class Normalizer:
                 return Poly.const(Fraction(str(e.value)))
             return self._atom(repr(e.value))
         if isinstance(e, ast.Name):
-            if e.id in self.env and self.depth < 12:
-                self.depth += 1
-                try:
-                    return self._n(self.env[e.id])
-                finally:
-                    self.depth -= 1
+            if e.id in self.env:
+                # environment values are closed over earlier values (eager substitution): no further inlining inside them
+                return Normalizer({}, self.rename)._n(self.env[e.id])
             return self._atom(e.id)
         if isinstance(e, ast.UnaryOp):
             if isinstance(e.op, ast.USub):
@@ -272,10 +295,28 @@ class Normalizer:
             if m in ("sum", "T", "transpose") and not args:
                 return self._atom("%s(%s)" % (m, recv.canon()))
             return self._atom("%s.%s(%s)" % ("(" + recv.canon() + ")", m, ",".join([a.canon() for a in args] + ["%s=%s" % k for k in kw])))
+        args = [a.simplify() for a in args]
         acan = [a.canon() for a in args]
+        # inverse pairs: f_inv(a, f(a, x)) -> x
+        if len(args) == 2 and not kw and args[1].single_monomial():
+            (m, c), = args[1].t.items()
+            if c == 1 and len(m) == 1 and m[0][1] == 1 and m[0][0] in _FUNCS:
+                ifn, iargs = _FUNCS[m[0][0]]
+                if (fn, ifn) in INVERSE_PAIRS and len(iargs) == 2 and iargs[0].canon() == acan[0]:
+                    return iargs[1]
+        # gammaincc(1, x) = exp(-x)
+        if fn == "gammaincc" and len(args) == 2 and acan[0] == "1":
+            return self._call_text("exp", [args[1].neg()])
         if fn in COMMUTATIVE_CALLS:
             acan = sorted(acan)
-        return self._atom("%s(%s)" % (fn, ",".join(acan + ["%s=%s" % k for k in kw])))
+        return self._call_text(fn, args, acan, kw)
+
+    def _call_text(self, fn, args, acan=None, kw=()):
+        acan = acan if acan is not None else [a.canon() for a in args]
+        text = "%s(%s)" % (fn, ",".join(acan + ["%s=%s" % k for k in kw]))
+        text = self.rename.get(text, text)
+        _FUNCS[text] = (fn, list(args))
+        return Poly.atom(text)
 
 
 # ---------------------------------------------------------------------------------------------------- extraction helpers
@@ -457,7 +498,7 @@ def leaves(expr, env=None, _depth=0):
             if e.id in bound:
                 return
             if e.id in env and _depth < 12:
-                out.update(leaves(env[e.id], {k: v for k, v in env.items() if k != e.id}, _depth + 1))
+                out.update(leaves(env[e.id], {}, _depth + 1))
             else:
                 out.add(e.id)
             return
